@@ -132,6 +132,14 @@ func genNLeaf(r *Rng, only string) nq {
 	return nq{q: q, tok: fmt.Sprintf("T %s %s %s", arrTok, hs(l.field), hs(v))}
 }
 
+// a leaf on a top-level field
+func genNLeafTop(r *Rng) nq {
+	v := c20Titles[r.Intn(len(c20Titles))]
+	q := bleve.NewTermQuery(v)
+	q.SetField("title")
+	return nq{q: q, tok: fmt.Sprintf("T - %s %s", hs("title"), hs(v))}
+}
+
 func genNQuery(r *Rng, depth int, only string) nq {
 	if depth <= 0 || r.Chance(30) {
 		return genNLeaf(r, only)
@@ -158,6 +166,31 @@ func genNQuery(r *Rng, depth int, only string) nq {
 	sub := only
 	if only == "*" && r.Chance(50) {
 		sub = []string{"emps", "emps", "offs"}[r.Intn(3)]
+	}
+	if only == "*" && r.Chance(20) {
+		// hot shape: a conjunction of three or four plain clauses on different levels (the two arrays and the
+		// top level), in any order: the nested conjunction has to line up several lagging clauses on one parent
+		n := 3 + r.Intn(2)
+		levels := []string{"", "emps", "offs", "emps"}
+		r2 := r.Fork()
+		for i := len(levels) - 1; i > 0; i-- {
+			j := r2.Intn(i + 1)
+			levels[i], levels[j] = levels[j], levels[i]
+		}
+		qs := make([]query.Query, n)
+		var sb strings.Builder
+		for i := 0; i < n; i++ {
+			lv := levels[i]
+			var k nq
+			if lv == "" {
+				k = genNLeafTop(r)
+			} else {
+				k = genNLeaf(r, lv)
+			}
+			qs[i] = k.q
+			sb.WriteString(" " + k.tok)
+		}
+		return nq{bleve.NewConjunctionQuery(qs...), fmt.Sprintf("C %d%s", n, sb.String()), false, false, false, false}
 	}
 	switch r.Intn(4) {
 	case 0, 1:
